@@ -436,3 +436,6 @@ def _f11_bare_tag_with_limit(case, detail, info):
 
 
 KNOWN_PREDICATES = {"single_bare_tag_with_limit_under_auto_detect": _f11_bare_tag_with_limit}
+
+
+RULE = RULE + " " + ('Old-style arguments are also written with blanks around the comma inside one argument (--tags="@a, @b"); new-style list terms include the \'(a and b) or (c)\' rendering.')
